@@ -110,7 +110,25 @@ fn find_contract<'u>(unit: &'u Unit, file: &str, keys: &[String]) -> Option<&'u 
             }
         }
     }
-    None
+    // a function that comes out of a `macro_rules!` body keeps its contract when the macro is renamed or split: match
+    // `@<any macro>::name` by the function name if exactly one contract of this file is keyed that way
+    if !keys.iter().any(|k| k.starts_with('@')) {
+        return None;
+    }
+    let name = keys.iter().filter_map(|k| k.rsplit("::").next()).next()?;
+    let mut hit: Option<&'u FnContract> = None;
+    for c in unit.fns.iter() {
+        if c.file != file {
+            continue;
+        }
+        if c.keys.iter().any(|k| k.starts_with('@') && k.rsplit("::").next() == Some(name)) {
+            if hit.is_some() {
+                return None;
+            }
+            hit = Some(c);
+        }
+    }
+    hit
 }
 
 #[allow(clippy::too_many_arguments)]
@@ -246,6 +264,23 @@ fn copy_item(file: &SrcFile, ci: &CopyItem, unit: &Unit, out: &mut Out, ctx: &mu
         if let syn::Item::Struct(s) = it {
             for f in s.fields.iter() {
                 if f.ident.is_none() {
+                    // tuple struct: X6 (visibility normalised to `pub`) and declared type rewrites
+                    let (vs, ve) = match &f.vis {
+                        syn::Visibility::Inherited => (lo(f.ty.span()), lo(f.ty.span())),
+                        v => (lo(v.span()), hi(v.span())),
+                    };
+                    seq += 1;
+                    edits.push(Edit { start: vs, end: ve, text: if vs == ve { "pub ".into() } else { "pub".into() }, kind: EK::Rewrite("X6"), seq, prio: 90 });
+                    let ty: String = src[lo(f.ty.span())..hi(f.ty.span())].chars().filter(|c| !c.is_whitespace()).collect();
+                    for (from, to) in unit.type_rewrites.iter() {
+                        let f2: String = from.chars().filter(|c| !c.is_whitespace()).collect();
+                        if ty == f2 {
+                            let rule = if f2.starts_with("*const") { "X11" } else { "X3" };
+                            seq += 1;
+                            edits.push(Edit { start: lo(f.ty.span()), end: hi(f.ty.span()), text: to.clone(), kind: EK::Rewrite(rule), seq, prio: 100 });
+                            ctx.rewrites.push(RewriteRec { rule: rule.into(), func: format!("struct {}", ident), src_file: file.name.clone(), src_line: line_of(src, lo(f.ty.span())), before: src[lo(f.ty.span())..hi(f.ty.span())].to_string(), after: to.clone() });
+                        }
+                    }
                     continue;
                 }
                 // X6: field visibility normalised to `pub`
@@ -277,6 +312,19 @@ fn copy_item(file: &SrcFile, ci: &CopyItem, unit: &Unit, out: &mut Out, ctx: &mu
                 }
             }
         }
+        if let syn::Item::Type(t) = it {
+            // an alias of a rewritten type is an alias of the stand-in
+            let ty: String = src[lo(t.ty.span())..hi(t.ty.span())].chars().filter(|c| !c.is_whitespace()).collect();
+            for (from, to) in unit.type_rewrites.iter() {
+                let f2: String = from.chars().filter(|c| !c.is_whitespace()).collect();
+                if ty == f2 {
+                    let rule = if f2.starts_with("*const") { "X11" } else { "X3" };
+                    seq += 1;
+                    edits.push(Edit { start: lo(t.ty.span()), end: hi(t.ty.span()), text: to.clone(), kind: EK::Rewrite(rule), seq, prio: 100 });
+                    ctx.rewrites.push(RewriteRec { rule: rule.into(), func: format!("type {}", ident), src_file: file.name.clone(), src_line: line_of(src, lo(t.ty.span())), before: src[lo(t.ty.span())..hi(t.ty.span())].to_string(), after: to.clone() });
+                }
+            }
+        }
         if let syn::Item::Enum(s) = it {
             for v in s.variants.iter() {
                 for a in v.attrs.iter() {
@@ -292,6 +340,24 @@ fn copy_item(file: &SrcFile, ci: &CopyItem, unit: &Unit, out: &mut Out, ctx: &mu
             out.audit_fail.push(format!("{} {}: {}", ci.kind, ci.name, e));
         }
         out.text.push_str(&cfg_attrs(attrs, src));
+        // a constant whose initialiser calls a function (`Duration::from_nanos(..)`) cannot be evaluated by the verifier:
+        // it is kept as an opaque constant of its type
+        if let syn::Item::Const(c) = it {
+            struct HasCall(bool);
+            impl<'ast> syn::visit::Visit<'ast> for HasCall {
+                fn visit_expr_call(&mut self, _: &'ast syn::ExprCall) {
+                    self.0 = true;
+                }
+                fn visit_expr_method_call(&mut self, _: &'ast syn::ExprMethodCall) {
+                    self.0 = true;
+                }
+            }
+            let mut v = HasCall(false);
+            syn::visit::Visit::visit_expr(&mut v, &c.expr);
+            if v.0 {
+                out.text.push_str("#[verifier::external_body]\n");
+            }
+        }
         if let Some(d) = &ci.derive {
             out.text.push_str(&format!("#[{}]\n", d));
         }
@@ -315,7 +381,7 @@ fn main() {
         kc_text.push_str(&std::fs::read_to_string(k).unwrap_or_else(|e| fatal(&format!("cannot read {}: {}", k, e))));
         kc_text.push('\n');
     }
-    let unit = contract::parse(&kc_text, &args.kcs.join("+"));
+    let mut unit = contract::parse(&kc_text, &args.kcs.join("+"));
     let kc_dir = std::path::Path::new(&args.kcs[0]).parent().unwrap().to_path_buf();
 
     // source files
@@ -334,6 +400,15 @@ fn main() {
         files.insert(n.clone(), SrcFile { name: n, text, ast });
     }
 
+    for f in files.values() {
+        for it in f.ast.items.iter() {
+            if let syn::Item::Type(t) = it {
+                let rhs: String = f.text[lo(t.ty.span())..hi(t.ty.span())].chars().filter(|c| !c.is_whitespace()).collect();
+                unit.aliases.insert(t.ident.to_string(), rhs);
+            }
+        }
+    }
+    let unit = unit;
     let mut ctx = Ctx::default();
     let mut out = Out { text: String::new(), chunks: vec![], fns: vec![], audit_fail: vec![] };
 
@@ -352,6 +427,8 @@ fn main() {
         out.text.push('\n');
     }
     out.text.push_str("\n// ===================== woven from the working tree (kweave) =====================\n\n");
+    let prelude_len = out.text.len();
+    let prelude_text = strip_comments(&out.text);
 
     for ci in unit.copies.iter() {
         let f = &files[&ci.file];
@@ -401,16 +478,37 @@ fn main() {
     }
     // every other top-level `const` of the unit's source files is copied too, so that a function which starts
     // to use a (new) constant is still decided instead of failing to compile
+    // likewise a top-level `type` alias, `enum` or `struct` that neither a `copy` directive nor a prelude defines is copied
+    // when the woven text refers to it (a new field of a new type, an alias introduced in a signature); done after weaving
+    let mut late: Vec<CopyItem> = vec![];
     {
-        let already: BTreeSet<String> = unit.copies.iter().filter(|c| c.kind == "const").map(|c| c.name.clone()).collect();
+        let already: BTreeSet<String> = unit.copies.iter().map(|c| c.name.clone()).collect();
+        let prelude_defines = |n: &str| -> bool {
+            ["struct ", "enum ", "type ", "const ", "trait "].iter().any(|kw| {
+                let pat = format!("{}{}", kw, n);
+                prelude_text.match_indices(&pat).any(|(k, _)| {
+                    !prelude_text[k + pat.len()..].chars().next().map(|c| c.is_alphanumeric() || c == '_').unwrap_or(false)
+                })
+            })
+        };
         let mut extra: Vec<CopyItem> = vec![];
         for fname in order.iter() {
             for it in files[fname].ast.items.iter() {
-                if let syn::Item::Const(c) = it {
-                    let n = c.ident.to_string();
-                    if !already.contains(&n) && !extra.iter().any(|e| e.name == n) {
-                        extra.push(CopyItem { file: fname.clone(), kind: "const".into(), name: n, derive: None });
-                    }
+                let (kind, n) = match it {
+                    syn::Item::Const(c) => ("const", c.ident.to_string()),
+                    syn::Item::Type(c) => ("type", c.ident.to_string()),
+                    syn::Item::Enum(c) => ("enum", c.ident.to_string()),
+                    syn::Item::Struct(c) => ("struct", c.ident.to_string()),
+                    _ => continue,
+                };
+                if already.contains(&n) || extra.iter().any(|e| e.name == n) || late.iter().any(|e| e.name == n) {
+                    continue;
+                }
+                let ci = CopyItem { file: fname.clone(), kind: kind.into(), name: n.clone(), derive: None };
+                if kind == "const" {
+                    extra.push(ci);
+                } else if !prelude_defines(&n) {
+                    late.push(ci);
                 }
             }
         }
@@ -528,6 +626,22 @@ fn main() {
     for c in unit.fns.iter() {
         if !used.contains(&c.line) {
             fatal(&format!("lost anchor: contract at line {} ({:?} in {}) matches no function in the working tree", c.line, c.keys, c.file));
+        }
+    }
+    loop {
+        let body = strip_comments(&out.text[prelude_len..]);
+        let is_ident = |c: char| c.is_alphanumeric() || c == '_';
+        let k = late.iter().position(|ci| {
+            body.match_indices(ci.name.as_str()).any(|(i, _)| {
+                !body[..i].chars().next_back().map(is_ident).unwrap_or(false) && !body[i + ci.name.len()..].chars().next().map(is_ident).unwrap_or(false)
+            })
+        });
+        match k {
+            Some(k) => {
+                let ci = late.remove(k);
+                copy_item(&files[&ci.file], &ci, &unit, &mut out, &mut ctx);
+            }
+            None => break,
         }
     }
     out.text.push_str(&tail);
